@@ -43,6 +43,13 @@ def one(drv, mode, ops_file):
         n += 1
     if len(a) != len(b):
         return (ops_file, n, "transcripts have different lengths (%d vs %d)" % (len(a), len(b)))
+    if "-thorough" in ops_file:
+        # the thorough tier writes tens of gigabytes of transcripts: a pair that agrees is not kept (the .ops file regenerates it)
+        for ext in (".impl", ".model"):
+            try:
+                os.remove(base + ext)
+            except OSError:
+                pass
     return (ops_file, n, None)
 
 def run(stats, ROOT, CACHE, pid, res):
